@@ -42,6 +42,7 @@ type Cfg struct {
 	NoWholeFile   bool
 	NoChains      bool
 	ElementChains bool // with NoChains: components may still be references to whole single-element files
+	RelativeTwins bool // twin element files also when the root location is relative (C16 open finding)
 }
 
 type gen struct {
@@ -342,6 +343,24 @@ func (g *gen) elementFile(kind, from string, depth int) string {
 	name := fmt.Sprintf("%s/el_%s%d.json", dir, kind, len(g.elems)+1)
 	if g.base != "" {
 		name = g.base + "/" + name
+	}
+	// a twin: another file with the same name and the same trailing directory, one level apart
+	// (shared/x.json next to api/shared/x.json), so that names derived from the tail collide
+	if (g.base != "" || g.cfg.RelativeTwins) && g.chance(4, "eltwin") {
+		for _, ex := range jv.Keys(anyOf(g.elems)) {
+			pre := "shared/"
+			if g.base != "" {
+				pre = g.base + "/shared/"
+			}
+			if strings.HasPrefix(ex, pre) && strings.Contains(ex, "/el_"+kind) {
+				twin := strings.Replace(ex, "shared/", "api/shared/", 1)
+				if _, taken := g.elems[twin]; !taken {
+					name = twin
+					g.feat["element-twin"]++
+				}
+				break
+			}
+		}
 	}
 	g.elems[name] = M{} // reserve
 	g.elems[name] = g.object(kind, name, depth-1)
@@ -716,4 +735,89 @@ func AllRefs(files map[string]string) []RefSite {
 		walk(v, nil)
 	}
 	return out
+}
+
+// GenerateGraph draws a small, dense reference graph over schema components only: 3-7 nodes spread
+// over up to four documents; each node is a leaf, an object whose members refer to other nodes
+// (any node: cycles are welcome), or a chain link (a component that is itself a reference; chain
+// links only point to later nodes, so no chain ends in itself). Component names are a random
+// permutation, because the loader resolves components in name order and what is "pending" when a
+// reference is met depends on it. The root document's paths refer to one or two nodes.
+func GenerateGraph(t *rapid.T, absolute bool) *Layout {
+	g := &gen{t: t, docs: map[string]M{}, elems: map[string]M{}, fileOf: map[string]string{}, kindOf: map[string]string{}, feat: map[string]int{}, inProg: map[string]bool{}}
+	if absolute {
+		g.base = "/w"
+		g.cfg.Absolute = true
+	}
+	p := func(s string) string {
+		if g.base != "" {
+			return g.base + "/" + s
+		}
+		return s
+	}
+	files := []string{p("api/root.json"), p("api/aux.json"), p("api/sub/more.json"), p("shared/defs.json")}
+	nfiles := rapid.IntRange(2, 4).Draw(t, "gfiles")
+	files = files[:nfiles]
+	for _, f := range files {
+		g.doc(f)
+	}
+	n := rapid.IntRange(3, 7).Draw(t, "gnodes")
+	names := rapid.Permutation([]string{"A", "B", "C", "D", "E", "F", "G"}).Draw(t, "gnames")[:n]
+	fileOf := make([]string, n)
+	for i := range fileOf {
+		fileOf[i] = rapid.SampledFrom(files).Draw(t, "gfile")
+	}
+	refTo := func(from string, j int) M {
+		frag := "#/components/schemas/" + names[j]
+		if fileOf[j] == from && rapid.IntRange(0, 3).Draw(t, "gsamedoc") > 0 {
+			return M{"$ref": frag}
+		}
+		g.feat["external"]++
+		return M{"$ref": g.relSpelling(from, fileOf[j]) + frag}
+	}
+	for i := 0; i < n; i++ {
+		f := fileOf[i]
+		var node M
+		kind := rapid.IntRange(0, 5).Draw(t, "gkind")
+		switch {
+		case kind <= 1 && i < n-1:
+			j := rapid.IntRange(i+1, n-1).Draw(t, "gchain")
+			node = refTo(f, j)
+			g.feat["chain"]++
+		case kind == 2:
+			node = M{"type": "string", "x-vid": g.newID("schema", f)}
+		default:
+			node = M{"type": "object", "x-vid": g.newID("schema", f)}
+			props := M{}
+			for k, pn := range []string{"p", "q"}[:rapid.IntRange(1, 2).Draw(t, "gnprops")] {
+				_ = k
+				props[pn] = refTo(f, rapid.IntRange(0, n-1).Draw(t, "gprop"))
+			}
+			node["properties"] = props
+			switch rapid.IntRange(0, 3).Draw(t, "gextra") {
+			case 0:
+				node["additionalProperties"] = refTo(f, rapid.IntRange(0, n-1).Draw(t, "gap"))
+			case 1:
+				node["type"] = "array"
+				delete(node, "properties")
+				node["items"] = refTo(f, rapid.IntRange(0, n-1).Draw(t, "gitems"))
+			}
+		}
+		g.comps(f, "schema")[names[i]] = node
+	}
+	root := files[0]
+	paths := g.docs[root]["paths"].(M)
+	for i := 0; i < rapid.IntRange(1, 2).Draw(t, "gpaths"); i++ {
+		j := rapid.IntRange(0, n-1).Draw(t, "gpathref")
+		paths[fmt.Sprintf("/p%d", i)] = M{"x-vid": g.newID("pathItem", root), "get": M{"responses": M{"200": M{"description": "d", "x-vid": g.newID("response", root),
+			"content": M{"application/json": M{"schema": refTo(root, j)}}}}}}
+	}
+	g.feat["files"] = nfiles
+	g.feat["graph-nodes"] = n
+	lay := &Layout{Files: map[string]string{}, Root: root, FileOf: g.fileOf, KindOf: g.kindOf, Features: g.feat}
+	for f, d := range g.docs {
+		b, _ := json.Marshal(d)
+		lay.Files[f] = string(b)
+	}
+	return lay
 }
